@@ -274,6 +274,7 @@ class NullAnalysis:
         self.idx = {k: i for i, k in enumerate(self.keys)}
         self.entry_state = entry_state or tuple(ANY if k in self.flags else MAYBE for k in self.keys)
         self.reports = []
+        self.null_flags = {}
 
     def flag_value(self, e):
         return ZERO if zero_lit(e) else ANY
@@ -329,6 +330,12 @@ class NullAnalysis:
 
         def tr(node, st):
             if node.kind == "decl":
+                # a bool local holding a null test of a tracked pointer is that test (is_restart = reader != nullptr)
+                for d in node.ast["d"]:
+                    if d.get("init") is not None and (d.get("t") or "").replace("const ", "").strip() == "bool":
+                        t0 = null_test(d["init"]) if C.strip_casts(d["init"]).get("k") == "Bin" else None
+                        if t0 and t0[0] in self.idx and t0[0] not in self.flags:
+                            self.null_flags[("local", d["id"], d["n"])] = t0
                 st = list(st)
                 for d in node.ast["d"]:
                     if d.get("init") is not None:
@@ -370,6 +377,10 @@ class NullAnalysis:
                         outs.append((lab, tuple(s2)))
                     return outs
                 t = null_test(node.ast)
+                if t and t[0] in self.null_flags:
+                    # the flag is true iff its pointer test holds
+                    base = self.null_flags[t[0]]
+                    t = (base[0], base[1] == t[1])
                 if t and t[0] in self.idx and t[0] not in self.flags:
                     i = self.idx[t[0]]
                     outs = []
